@@ -75,6 +75,50 @@ def chainRemove (key : K) : List (K × V) → List (K × V) × Bool
 /-- enumeration order of `HashMap::Enumerator`: buckets in index order, each chain in `next` order -/
 def enum (m : HM K V) : List (K × V) := m.buckets.flatten
 
+/-! ## `HashMap::Enumerator` as coded (also `foreach`/`foreach2`, `Set::Enumerator`, `Set::array()`)
+
+The state is `(j, p)`: `e` points at array slot `j + SKIP` (bucket `j`), `p` is the rest of the current chain
+(`[]` = null).  Every read `*e` is `B[j]?`; a read outside the table makes the walk `none`. -/
+
+/-- `while(p == 0 && e) { ++e; if(e) p = *e; }` (shared by the constructor and `operator++`); `fuel` bounds the
+iterations (`B.length + 1` always suffices) -/
+def settle (B : List (List (K × V))) : Nat → Nat → List (K × V) → Option (Nat × List (K × V))
+  | _, j, kv :: t => some (j, kv :: t)
+  | 0, _, [] => none
+  | f + 1, j, [] =>
+    if j < B.length then
+      if j + 1 < B.length then
+        match B[j + 1]? with
+        | none => none
+        | some c => settle B f (j + 1) c
+      else some (j + 1, [])
+    else some (j, [])
+
+/-- `for(; e; ++e) yield (~e, *e)`: `operator bool` is `p != 0 || e`; with `p == 0` and `e` still inside the table the
+body would dereference null (`none`); `operator++` is `p = p->next` followed by the settle loop -/
+def walkLoop (B : List (List (K × V))) : Nat → Nat → List (K × V) → Option (List (K × V))
+  | 0, _, _ => none
+  | _ + 1, j, [] => if j < B.length then none else some []
+  | f + 1, j, kv :: t =>
+    match settle B (B.length + 1) j t with
+    | none => none
+    | some (j', p') => (walkLoop B f j' p').map (kv :: ·)
+
+/-- `Enumerator(const HashMap& m)` — `SKIP` times `++e` (unchecked), `p = *e` (reads slot `SKIP`, i.e. bucket 0: this
+read is inside the array only because a table has at least one bucket), settle — followed by the whole loop -/
+def walk (m : HM K V) : Option (List (K × V)) :=
+  match m.buckets[0]? with
+  | none => none
+  | some c =>
+    match settle m.buckets (m.buckets.length + 1) 0 c with
+    | none => none
+    | some (j, p) => walkLoop m.buckets (m.buckets.flatten.length + 1) j p
+
+/-- `nextPoT(int n)` on the C++ `int`: for `n < 1` the decrement gives a negative number, the arithmetic shifts smear
+the sign bit over all 32 bits (`-1`) and `n + 1` is `0` — a table of no buckets; `HashMap(int)` therefore clamps its
+argument to `1` (16300ca).  For `1 ≤ n ≤ 2^30` it is `nextPoT` above; above `2^30` the `int` overflows (not modelled). -/
+def nextPoTInt (n : Int) : Int := if n < 1 then 0 else (nextPoT n.toNat : Nat)
+
 /-- inner loop of `rehash()`: every node, in enumeration order, is appended to the tail of its new bucket -/
 def rehashInto (h : K → Nat) (nb : Nat) (es : List (K × V)) : List (List (K × V)) :=
   es.foldl (fun b kv => let bin := binOf h nb kv.1; b.set bin (b.getD bin [] ++ [kv])) (List.replicate nb [])
